@@ -54,16 +54,41 @@ structure Binding where
   loc : Pos
   info : NameInfo
   site : Option Text.Generated.CallSite := none
+  /-- `alias = some (e, back)` (import aliases): the search starts where `SourceScope.alias_start` says - on line `e.1`, at
+      the character column of byte column `e.2 - back`, minus one; `info.declaredAt` is the fallback `np(node)` -/
+  alias : Option (Pos × Nat) := none
   deriving DecidableEq, Repr, Inhabited
 
 def str (s : String) : List Char := s.toList
+
+/-- `len(line.encode('utf-8')[:col].decode('utf-8', 'ignore'))`: the characters that fit entirely in the first `col` bytes -/
+def charCol : List Char → Nat → Nat
+  | [], _ => 0
+  | c :: r, col => if c.utf8Size ≤ col then 1 + charCol r (col - c.utf8Size) else 0
+
+/-- `SourceScope.alias_start(node, alias)` for the byte position `(e.1, e.2 - back)`: `(ln, charcol - 1)`, or, when the
+    alias is the first thing on its line (`charcol = 0`), the END of the line before (`find` then starts at the first
+    character of line `ln`; the searched window begins one line earlier); the fallback `np(node)` when the alias carries no
+    position or the line does not exist (IndexError) -/
+def searchStart (lines : List Text.Str) (fallback : Pos) (alias : Option (Pos × Nat)) : Pos :=
+  match alias with
+  | none => fallback
+  | some (e, back) =>
+    match (if e.1 = 0 then lines.getLast? else lines[e.1 - 1]?) with
+    | some line =>
+      let col := charCol line (e.2 - back)
+      if col = 0 then
+        (e.1 - 1, match (if e.1 ≤ 1 then lines.getLast? else lines[e.1 - 2]?) with | some prev => prev.length | none => 0)
+      else (e.1, col - 1)
+    | none => fallback
 
 /-- the `top.find_id_loc(...)` call of the binding site (Text family: `findIdLoc`, verified for C11) -/
 def Binding.resolve (lines : List Text.Str) (b : Binding) : Binding :=
   match b.site with
   | none => b
-  | some s => { b with info := { b.info with declaredAt := Text.declaredAt s lines (str b.name) b.info.declaredAt },
-                       site := none }
+  | some s =>
+    let decl := Text.declaredAt s lines (str b.name) (searchStart lines b.info.declaredAt b.alias)
+    { b with info := { b.info with declaredAt := decl }, site := none, alias := none }
 
 structure ScopeSt where
   id : Nat
@@ -186,6 +211,12 @@ def St.addReturn (st : St) : St :=
 
 /-! ## actions -/
 
+/-- where a `find_id_loc` search starts: `alias_start(node, alias)` (see `Binding.alias`), fallback `np(node)` -/
+structure StartSpec where
+  fallback : Pos
+  alias : Option (Pos × Nat) := none
+  deriving DecidableEq, Repr, Inhabited
+
 inductive FlowRef where
   | cur               -- `self.flow`
   | reg (r : Nat)     -- a flow held in a local variable of the visit method
@@ -206,7 +237,7 @@ inductive Instr where
   | globalDecl (names : List String)                           -- self.flow.scope.globals.update(names)
   | addReturn                                                  -- visit_Return's bookkeeping
   | addImport (name : String)                                  -- top._imports.append(name)
-  | addStar (loc start : Pos) (module : String)                -- top._star_imports.append((loc, find_id_loc('*', start), module, self.flow))
+  | addStar (loc : Pos) (start : StartSpec) (module : String)  -- top._star_imports.append((loc, find_id_loc('*', alias_start(node, a)), module, self.flow))
   | scopeBody (cls : Bool) (self : Binding) (register : Bool) (args : List Binding) (body : List Ast)
       -- cur = self.flow; scope = ClassScope (cls) / FuncScope (cur.scope, node, top) [its flow, its arguments];
       -- register: cur.add_name(scope); self.visit_in_flow(body, scope.flow); self.flow = cur
@@ -264,7 +295,7 @@ def execInstr (lines : List Text.Str) (rec : Rec) (i : Instr) (env : Env) (st : 
   | .addReturn => pure (env, st.addReturn)
   | .addImport n => pure (env, { st with imports := n :: st.imports })
   | .addStar loc start m =>
-    let decl := Text.declaredAt Text.Generated.importFromSite lines ['*'] start
+    let decl := Text.declaredAt Text.Generated.importFromSite lines ['*'] (searchStart lines start.fallback start.alias)
     pure (env, { st with stars := { loc := loc, decl := decl, module := m, flow := st.cur } :: st.stars })
   | .scopeBody cls self register args body => do
     let cur := st.cur
@@ -480,61 +511,86 @@ def truthy (s : Option String) : Option String :=
   | some x => if x.isEmpty then none else some x
   | none => none
 
+/-- `getattr(node, k, [])` / `getattr(node, k, None)` of a list-valued field -/
+def optNodeList (n : Ast) (k : String) : M (List Ast) :=
+  match n.field? k with
+  | some _ => getNodeList n k
+  | none => pure []
+
+/-- the position `alias_start(node, alias)` computes from: the END of the alias minus the byte length of its asname
+    (`e` = the node carrying the end position, see `aliasEnds`), or the start of the alias; `none` = the positions are
+    missing (AttributeError -> `np(node)`) -/
+def aliasSpec (a : Ast) (asname : Option String) (e : Option Ast) : Option (Pos × Nat) :=
+  match asname with
+  | some s =>
+    match e with
+    | some en => (match en.pos? with | some ep => some (ep, s.utf8ByteSize) | none => none)
+    | none => none
+  | none => (match a.pos? with | some ap => some (ap, 0) | none => none)
+
 /-- one alias of visit_Import -/
-def importAlias (loc start : Pos) (a : Ast) : M Prog := do
+def importAlias (loc start : Pos) (a : Ast) (e : Option Ast) : M Prog := do
   let asname ← getOptStr a "asname"
   let aname ← getStr a "name"
   match truthy asname with
   | some s =>
-    pure [.addName .cur { name := s, loc := loc, site := some Text.Generated.importSite,
+    pure [.addName .cur { name := s, loc := loc, site := some Text.Generated.importSite, alias := aliasSpec a (some s) e,
                           info := { kind := .imported, declaredAt := start, module := aname, qualified := false } }]
   | none =>
     let nq := partitionDot aname
     pure [.addImport aname,
-          .addName .cur { name := nq.1, loc := loc, site := some Text.Generated.importSite,
+          .addName .cur { name := nq.1, loc := loc, site := some Text.Generated.importSite, alias := aliasSpec a none e,
                           info := { kind := .imported, declaredAt := start, module := nq.1, qualified := nq.2 } }]
 
-def importAliases (loc start : Pos) : List Ast → M Prog
-  | [] => pure []
-  | a :: r => do
-    let this ← importAlias loc start a
-    let rest ← importAliases loc start r
+def importAliases (loc start : Pos) : List Ast → List Ast → M Prog
+  | [], _ => pure []
+  | a :: r, es => do
+    let this ← importAlias loc start a es.head?
+    let rest ← importAliases loc start r es.tail
     pure (this ++ rest)
+
+/-- the nodes carrying `(end_lineno, end_col_offset)` of the aliases: the serialiser puts them, in the order of `names`, in a
+    pseudo-field `alias_ends` BEFORE the real fields (so that `get_expr_end` still ends at the last alias); they are
+    positions, hence moved with the layout.  Absent = no end positions (Python < 3.10). -/
+def aliasEnds (n : Ast) : M (List Ast) := optNodeList n "alias_ends"
 
 def compileImport (n : Ast) : M Prog := do
   let loc ← exprEnd n
   let start ← np n
   let names ← getNodeList n "names"
-  importAliases loc start names
+  let ends ← aliasEnds n
+  importAliases loc start names ends
 
 /-- one alias of visit_ImportFrom -/
-def importFromAlias (loc start : Pos) (mod : String) (a : Ast) : M Prog := do
+def importFromAlias (loc start : Pos) (mod : String) (a : Ast) (e : Option Ast) : M Prog := do
   let asname ← getOptStr a "asname"
   let aname ← getStr a "name"
   let name := (truthy asname).getD aname
-  if name == "*" then pure [.addStar loc start mod]
+  if name == "*" then pure [.addStar loc { fallback := start, alias := aliasSpec a (truthy asname) e } mod]
   else
     pure [.addName .cur { name := name, loc := loc, site := some Text.Generated.importFromSite,
+                          alias := aliasSpec a (truthy asname) e,
                           info := { kind := .imported, declaredAt := start, module := mod, mname := some aname } }]
 
-def importFromAliases (loc start : Pos) (mod : String) : List Ast → M Prog
-  | [] => pure []
-  | a :: r => do
-    let this ← importFromAlias loc start mod a
-    let rest ← importFromAliases loc start mod r
+def importFromAliases (loc start : Pos) (mod : String) : List Ast → List Ast → M Prog
+  | [], _ => pure []
+  | a :: r, es => do
+    let this ← importFromAlias loc start mod a es.head?
+    let rest ← importFromAliases loc start mod r es.tail
     pure (this ++ rest)
 
 def compileImportFrom (n : Ast) : M Prog := do
   let loc ← exprEnd n
   let start ← np n
   let names ← getNodeList n "names"
+  let ends ← aliasEnds n
   match names with
   | [] => pure []
   | _ :: _ => do
     -- `'.' * node.level + (node.module or '')`, evaluated in the loop
     let level ← getInt n "level"
     let module ← getOptStr n "module"
-    importFromAliases loc start (String.ofList (List.replicate level.toNat '.') ++ module.getD "") names
+    importFromAliases loc start (String.ofList (List.replicate level.toNat '.') ++ module.getD "") names ends
 
 /-- `if h.name: fh.add_name(AssignedName(h.name, body_loc, np(h), h.type))` -/
 def handlerBind (h : Ast) (name : Option String) (hbody : List Ast) (fh : Nat) : M Prog :=
@@ -608,12 +664,6 @@ structure ArgsView where
   kwonly : List Ast
   vararg : Option Ast
   kwarg : Option Ast
-
-/-- `getattr(node, k, [])` / `getattr(node, k, None)` of a list-valued field -/
-def optNodeList (n : Ast) (k : String) : M (List Ast) :=
-  match n.field? k with
-  | some _ => getNodeList n k
-  | none => pure []
 
 /-- an `ast.arguments` node -/
 def viewArguments (args : Ast) : M ArgsView := do
